@@ -96,7 +96,11 @@ def _run_case(ctx, case, op):
         if case.get("same_object") and a == b:
             vb = va
         try:
-            r = va + vb
+            if case.get("augmented") and not isinstance(va, str):
+                r = va
+                r += vb                 # a += b : same value as a + b, and `a` itself untouched
+            else:
+                r = va + vb
         except Exception as e:  # noqa
             ctx.judge(False, case, mech="C06:add", expected=obs.show(want), got=repr(e))
             return
@@ -195,7 +199,8 @@ def run(ctx):
                 continue
             sb = obs.spec_for_lengths(lb, first_letter=13, palette_offset=5)
             run_case(ctx, {"op": "add", "a": sa, "b": sb})
-            ctx.count("adds")
+            run_case(ctx, {"op": "add", "a": sa, "b": sb, "augmented": True})
+            ctx.count("adds", 2)
         n += 1
         if ctx.mine(n):
             run_case(ctx, {"op": "add", "a": sa, "b": sa, "same_object": True})
